@@ -38,7 +38,9 @@ SYM = {'a': 2, 'b': -3, 'h': 0.5, '_': None, 'x': 'x', 'z': 0,
        # values the statement is silent on (numeric text, a logical): no
        # reference value, but the stated relations still bind the observed
        # results (MIN <= AVERAGE <= MAX, argument order)
-       'n': '40', 'm': '-100', 't': True}
+       'n': '40', 'm': '-100', 't': True,
+       # text that is not numeric although a lenient converter takes it
+       'T': 'true', 'y': '2020-01-01', 'i': 'inf'}
 EXTRA = 4                       # the extra literal number argument
 COLS = 'ABCDEFGHIJ'
 PROBE_COL = 'ZZ'
@@ -636,6 +638,7 @@ def families(tier):
             fam.append(('agg', s, 'aq_', 'whole', 300))
             # relations only: numeric text and a logical among the numbers
             fam.append(('agg', s, 'anm_', 'whole2cuts', 300))
+            fam.append(('agg', s, 'aTyi', 'whole', 300))
             fam.append(('agg', s, 'abt', 'whole2cuts', 300))
         for s in SIX:
             fam.append(('agg', s, 'abh_x', 'whole', 500))
